@@ -393,52 +393,54 @@ void op_invoke(const Program& P, const Call& c, const std::vector<void*>& mods, 
       auto cmp = [&](const double* b) {
         if (memcmp(b, ref, 2 * (size_t)mm * sizeof(double)) != 0) bad++;
       };
+      // all buffers hold live data at once (fill all, transform all, then compare all): buffers that overlap each other
+      // or the tables are seen as well as a single wrong one
+      std::vector<std::vector<double>> keep(nb);
+      auto pattern = [&](std::vector<double>& v, uint32_t i) {
+        v.resize(2 * (size_t)mm);
+        for (uint32_t j = 0; j < 2 * mm; ++j) v[j] = (double)((j * 7 + i * 3) % 1000) - 500.0;
+      };
+      auto all_live = [&](auto get, auto run, auto run0) {
+        for (uint32_t i = 0; i < nb; ++i) {
+          pattern(keep[i], i);
+          memcpy(get(i), keep[i].data(), 2 * (size_t)mm * sizeof(double));
+        }
+        for (uint32_t i = 0; i < nb; ++i) run((double*)get(i));
+        for (uint32_t i = 0; i < nb; ++i) {
+          run0(keep[i].data());
+          if (memcmp(get(i), keep[i].data(), 2 * (size_t)mm * sizeof(double)) != 0) bad++;
+        }
+        // and one at a time
+        for (uint32_t i = 0; i < nb; ++i) {
+          double* bq = (double*)get(i);
+          fill(bq, i);
+          run(bq);
+          run0(ref);
+          cmp(bq);
+        }
+      };
       if (c.p[0] == 0) {
         REIM_FFT_PRECOMP* t = new_reim_fft_precomp(mm, nb);
         REIM_FFT_PRECOMP* t0 = new_reim_fft_precomp(mm, 0);
-        for (uint32_t i = 0; i < nb; ++i) {
-          double* b = reim_fft_precomp_get_buffer(t, i);
-          fill(b, i);
-          reim_fft(t, b);
-          reim_fft(t0, ref);
-          cmp(b);
-        }
+        all_live([&](uint32_t i) { return (void*)reim_fft_precomp_get_buffer(t, i); }, [&](double* d) { reim_fft(t, d); }, [&](double* d) { reim_fft(t0, d); });
         delete_reim_fft_precomp(t);
         delete_reim_fft_precomp(t0);
       } else if (c.p[0] == 1) {
         REIM_IFFT_PRECOMP* t = new_reim_ifft_precomp(mm, nb);
         REIM_IFFT_PRECOMP* t0 = new_reim_ifft_precomp(mm, 0);
-        for (uint32_t i = 0; i < nb; ++i) {
-          double* b = reim_ifft_precomp_get_buffer(t, i);
-          fill(b, i);
-          reim_ifft(t, b);
-          reim_ifft(t0, ref);
-          cmp(b);
-        }
+        all_live([&](uint32_t i) { return (void*)reim_ifft_precomp_get_buffer(t, i); }, [&](double* d) { reim_ifft(t, d); }, [&](double* d) { reim_ifft(t0, d); });
         delete_reim_ifft_precomp(t);
         delete_reim_ifft_precomp(t0);
       } else if (c.p[0] == 2) {
         CPLX_FFT_PRECOMP* t = new_cplx_fft_precomp(mm, nb);
         CPLX_FFT_PRECOMP* t0 = new_cplx_fft_precomp(mm, 0);
-        for (uint32_t i = 0; i < nb; ++i) {
-          double* b = (double*)cplx_fft_precomp_get_buffer(t, i);
-          fill(b, i);
-          cplx_fft(t, b);
-          cplx_fft(t0, ref);
-          cmp(b);
-        }
+        all_live([&](uint32_t i) { return (void*)cplx_fft_precomp_get_buffer(t, i); }, [&](double* d) { cplx_fft(t, d); }, [&](double* d) { cplx_fft(t0, d); });
         delete_cplx_fft_precomp(t);
         delete_cplx_fft_precomp(t0);
       } else {
         CPLX_IFFT_PRECOMP* t = new_cplx_ifft_precomp(mm, nb);
         CPLX_IFFT_PRECOMP* t0 = new_cplx_ifft_precomp(mm, 0);
-        for (uint32_t i = 0; i < nb; ++i) {
-          double* b = (double*)cplx_ifft_precomp_get_buffer(t, i);
-          fill(b, i);
-          cplx_ifft(t, b);
-          cplx_ifft(t0, ref);
-          cmp(b);
-        }
+        all_live([&](uint32_t i) { return (void*)cplx_ifft_precomp_get_buffer(t, i); }, [&](double* d) { cplx_ifft(t, d); }, [&](double* d) { cplx_ifft(t0, d); });
         delete_cplx_ifft_precomp(t);
         delete_cplx_ifft_precomp(t0);
       }
